@@ -202,16 +202,20 @@ STR_INT = uf('py_str_int', ['int'], 'str', lambda i: str(i), axiom=(
 ZFILL = uf('py_zfill', ['str', 'int'], 'str', lambda s, n: s.zfill(n))
 
 
+BITLEN_THRESHOLDS = (1, 2, 3, 4, 8, 16, 32, 53, 64, 128, 256, 341, 342, 511, 512, 513, 1023, 1024)
+
+
 def _ax_bitlen(args, res):
     n, r = to_int(args[0]), to_int(res)
     a = z3.If(n >= 0, n, -n)
-    return z3.And(r >= 0, (n == 0) == (r == 0), z3.Implies(a == 1, r == 1), z3.Implies(a >= 2, r >= 2), z3.Implies(a >= 4, r >= 3))
+    # |n| >= 2**k  <=>  bit_length(n) >= k + 1, instantiated at the thresholds that matter for the range of a double
+    return z3.And(r >= 0, (n == 0) == (r == 0), *[(a >= z3.IntVal(2 ** k)) == (r >= k + 1) for k in (0,) + BITLEN_THRESHOLDS])
 
 
 BITLEN = uf('py_int_bit_length', ['int'], 'int', lambda n: int(n).bit_length(), axiom=(
-    'int.bit_length(n) is 0 exactly for n == 0, 1 for |n| == 1, >= 2 for |n| >= 2, >= 3 for |n| >= 4', _ax_bitlen,
-    lambda a, r: r >= 0 and (a[0] == 0) == (r == 0) and (abs(a[0]) != 1 or r == 1) and (abs(a[0]) < 2 or r >= 2) and (abs(a[0]) < 4 or r >= 3),
-    [[0], [1], [-1], [2], [-3], [4], [2 ** 64], [-2 ** 70]]))
+    'int.bit_length(n) is 0 exactly for n == 0, and |n| >= 2**k <=> bit_length(n) >= k + 1 at the listed thresholds k', _ax_bitlen,
+    lambda a, r: r >= 0 and (a[0] == 0) == (r == 0) and all((abs(a[0]) >= 2 ** k) == (r >= k + 1) for k in (0,) + BITLEN_THRESHOLDS),
+    [[0], [1], [-1], [2], [-3], [4], [2 ** 64], [-2 ** 70], [2 ** 511], [2 ** 511 - 1], [2 ** 1024], [-2 ** 341]]))
 def _fmt_uf(fn, name, chars):
     return uf(name, ['int'], 'str', lambda v: fn(v)[2:] if v >= 0 else '', axiom=(
         f'{fn.__name__}(v)[2:] for v >= 0 is a non-empty string over {chars}', _ax_digits(chars),
@@ -599,6 +603,11 @@ def symobj_attr(it, o, attr):
 def native_method(it, f, args, kwargs):
     recv = f.__self__
     name = f.__name__
+    if isinstance(recv, (set, frozenset)) and name in ('issuperset', '__ge__') and len(args) == 1 and is_sym(args[0]) and args[0].k == 'str' \
+            and all(isinstance(c, str) and len(c) == 1 for c in recv):
+        return charset_subset(frozenset(recv))(args[0])          # every character of the text is in the set
+    if isinstance(recv, (set, frozenset)) and name == 'issuperset' and len(args) == 1 and isinstance(args[0], SymCharSet) and args[0].minus is None:
+        return charset_subset(frozenset(recv))(args[0].s)
     if isinstance(recv, _re.Pattern) and name in ('match', 'search', 'fullmatch') and args and is_sym(args[0]) and len(args) == 1:
         return ReMatch(regex_matches(recv.pattern, name, args[0], recv.flags & ~_re.UNICODE))
     symarg = any(is_sym(a) or isinstance(a, SymObject) for a in args)
